@@ -445,3 +445,18 @@ Theorem parse_eq_ref_repaired c s :
 Proof.
   intros Hf Hwf Hb Hn. apply parse_eq_ref_partial; auto. rewrite Hf. apply known_none_when_repaired.
 Qed.
+
+(* TCP over IPv6 with 4 words of options (data offset 9): a third non-vacuity witness, valid for both variants *)
+Definition ex_tcp6 : bytes :=
+  ([0;102;102;102;102;102; 2;17;17;17;17;17; 134;221] ++
+   [96;0;0;0; 0;40; 6;64] ++ [254;128;0;0;0;0;0;0;0;0;0;0;0;0;0;1] ++ [254;128;0;0;0;0;0;0;0;0;0;0;0;0;0;2] ++
+   [1;187; 200;1; 0;0;0;0; 0;0;0;0; 144;16; 0;0; 0;0;0;0] ++ repeat 1 16 ++ [9;9;9;9])%list.
+Example parse_eq_ref_nonvacuous_tcp6 :
+  known_C02 fx_old ex_tcp6 = None /\ known_C02 fx_new ex_tcp6 = None /\
+  exists r, ref_decode ex_tcp6 = ROk r /\ r_id r = 9 /\ r_ip6 r = Some 14%nat /\ r_tcp r = Some 54%nat /\ r_pay r = 54%nat /\
+            r_sport r = 443 /\ r_dport r = 51201 /\
+  exists f, parse cfg1 (of_bytes ex_tcp6) = Ok f /\ f_host f = Some ([2;17;17;17;17;17], [254;128;0;0;0;0;0;0;0;0;0;0;0;0;0;1]).
+Proof.
+  split; [vm_compute; reflexivity|]. split; [vm_compute; reflexivity|]. eexists. split; [vm_compute; reflexivity|].
+  repeat split. eexists. split; vm_compute; reflexivity.
+Qed.
